@@ -204,8 +204,12 @@ func (g *Gen) DrawEnv(txs []txgen.Tx) sim.BlockSpec {
 			spec.Pool = append(spec.Pool, g.Draw().Bytes)
 		}
 	}
-	// the node itself is restarted before 1 block in 30 (honoured in single-replica histories)
-	if g.Uniform(30, "restart") == 0 {
+	// the node itself is restarted before 1 block in 30 (honoured in single-replica histories); RestartPer overrides
+	per := 30
+	if g.RestartPer > 0 {
+		per = g.RestartPer
+	}
+	if g.Uniform(per, "restart") == 0 {
 		spec.Restart = true
 	}
 	// nodes that went down: absent from every commit from some height on (tendermint drops the ones that would
